@@ -9,6 +9,14 @@ LEVEL_NOTE = ("Trusted base: clang 14 front end and CFG builder, the gsa-extract
               "Assumes the shipped configuration (GALOIS_USE_LONGJMP_ABORT, NDEBUG).")
 
 CHECKS = {
+    "C07": ("narrow: decides structural necessary conditions of determinism on every CFG path of every deterministic-executor "
+            "instantiation of the driver matrix (branches on constant-returning disabled managers pruned): inspect and commit "
+            "phases barrier-separated in both directions; round flags obey the barrier-interval rule; new work merged by "
+            "thread 0 strictly between barriers; mark-conflict winner decided by item-id comparison only; new-item order "
+            "reads only (parent, count); no pointer-order, clock/rand or thread-id dependence of ids; push buffer transferred "
+            "only after a conflict-free run with 1,2,.. numbering; commit or re-queue exactly once with reset. Does not decide "
+            "that merge/renumbering values are thread-count independent.",
+            "barrier-interval discipline (BAR), CFG guard/ordering rules, determinism taint scan over clang AST facts", "4 C07"),
     "C08": ("exhaustive evaluation, on every CFG path (incl. loop back edges) of every BulkSynchronous and barrier-OBIM "
             "instantiation of the driver matrix, of: push targets the queue of round+1 and pop the queue of round; the "
             "round flip is bracketed by two barrier waits; thread 0's flag update lies strictly between them and every "
